@@ -221,6 +221,9 @@ from harness.pipe import MID as _MID, SPL3 as _SPL3, MID_ALTS as _MID_ALTS
 QUICK.append(_reg(Pipeline("pipe_mid_subst_multi_t1", 1, _MID, splitters=_SPL3, preempt=0, driver="multi", edits=[("rc", 1, 0), ("subst", 1, 0)], sym_alpha=(0, 1, 2, 3, 4), alts=_MID_ALTS, cross=True)).name)
 QUICK.append(_reg(Pipeline("pipe_mid_delrange_multi_t1", 1, _MID, splitters=_SPL3, preempt=0, driver="multi", edits=[("rc", 1, 0), ("delrange", 1, 0)], alts=_MID_ALTS)).name)
 THOROUGH += ["pipe_mid_subst_multi_t1", "pipe_mid_delrange_multi_t1"]
+from harness import pipe as _pipe
+INSTANCES["nrun_subst_multi_t1"] = _pipe.INSTANCES["nrun_subst_multi_t1"]
+QUICK.append("nrun_subst_multi_t1"); THOROUGH.append("nrun_subst_multi_t1")
 THOROUGH += ["pipe_edit_subst_t1", _reg(Pipeline("T_pipe_edit_indel_rc_t1", 1, _TWO, splitters=SPL, preempt=0, driver="api", edits=[("rc", 1, 0), ("del", 1, 0), ("ins", 1, 0)])).name,
              _reg(Pipeline("T_pipe_edit_subst_multi_t2", 2, _TWO, splitters=SPL, preempt=0, driver="multi", edits=[("subst", 1, 0)])).name]
 for _n in ("pipe_rt_api_t1", "pipe_rt_multi_t2", "T_pipe_rt_api_t2_p1", "T_pipe_rt_multi_t2_store", "T_pipe_rt_single_t2", "pipe_edit_subst_t1", "T_pipe_edit_indel_rc_t1", "T_pipe_edit_subst_multi_t2", "pipe_edit_delrange_rc_t1", "pipe_edit_delrange_rc_multi_t1", "pipe_edit_subst_multi_t1", "pipe_mid_subst_multi_t1", "pipe_mid_delrange_multi_t1"):
